@@ -290,4 +290,169 @@ Section Inv.
       apply (Hnp u a1 i1 p1). unfold A'; cbn. destruct (Nat.eqb_spec u t); [congruence|exact Hpd].
     - intros u. unfold A'; cbn. destruct (Nat.eqb_spec u t) as [->|]; [cbn|]; apply i_known0.
   Qed.
+
+  (** the store of the moved item into the pending array node *)
+  Lemma Inv_store g A tr t a i p n o pre :
+    Inv g A tr -> ph (views A t) = PConv a i p n -> pfx A a = Some (o, pre) ->
+    Inv (with_arr g (set_slot (arr g) n (cut (hash (ikey g p)) (o + bits_of a) abits) (mkSlot p 0)))
+        (set_view A t (mkL (PStored a i p n) (ka (views A t)) (ko (views A t)) (kpre (views A t)))) tr.
+  Proof.
+    intros I Hph Hp. destruct I.
+    set (idx := cut (hash (ikey g p)) (o + bits_of a) abits). set (A' := set_view A t _).
+    destruct (i_pend0 t a i p n (or_introl Hph)) as (Hs & Hn_none & Hn_lt & Hn0 & Hp0 & _).
+    assert (NL : forall m, pfx A m <> None -> m <> n) by (intros m Hm ->; congruence).
+    assert (PO : forall u a0 i0 p0 n0, u <> t -> pending (views A' u) a0 i0 p0 n0 -> pending (views A u) a0 i0 p0 n0).
+    { intros u a0 i0 p0 n0 Hu. unfold A'; cbn. destruct (Nat.eqb_spec u t); [congruence|auto]. }
+    assert (PT : forall a0 i0 p0 n0, pending (views A' t) a0 i0 p0 n0 -> (a0, i0, p0, n0) = (a, i, p, n)).
+    { intros a0 i0 p0 n0. unfold A', pending; cbn. rewrite Nat.eqb_refl; cbn. intros [H|H]; inversion H; reflexivity. }
+    assert (PA : forall u a0 i0 p0 n0, pending (views A' u) a0 i0 p0 n0 -> pending (views A u) a0 i0 p0 n0).
+    { intros u a0 i0 p0 n0 H. destruct (Nat.eq_dec u t) as [->|Hu]; [|apply PO; auto].
+      apply PT in H. inversion H; subst. left; exact Hph. }
+    assert (OTH : forall a0 i0, pfx A a0 <> None -> set_slot (arr g) n idx (mkSlot p 0) a0 i0 = arr g a0 i0).
+    { intros a0 i0 H. apply set_slot_other. intros E; inversion E; subst. eapply NL; eauto. }
+    constructor; change (pfx A') with (pfx A); cbn [arr narr nitem ikey pfx with_arr]; auto.
+    - intros a0 o0 pre0 H0 Hn00. destruct (i_parent0 a0 o0 pre0 H0 Hn00) as (pa & i' & po & ppre & H1 & H2 & H3 & H4).
+      exists pa, i', po, ppre. repeat split; auto. rewrite OTH; [exact H2|congruence].
+    - intros pa po ppre i' c H1 H2. rewrite OTH in H2 by congruence. eapply i_child0; eauto.
+    - intros a0 o0 pre0 i0 p0 b0 H1 H2 Hb Hn. rewrite OTH in H2 by congruence. eapply i_data0; eauto.
+    - intros a0 i0 c b H1 Hb. destruct (set_slot_cases (arr g) n idx (mkSlot p 0) a0 i0) as [[E Hv]|[E Hv]]; rewrite Hv in H1.
+      + inversion H1; subst. lia.
+      + eapply i_arrslot0; eauto.
+    - intros u a0 i0 p0 n0 H. apply PA in H. destruct (i_pend0 u a0 i0 p0 n0 H) as (H1 & H2 & H3 & H4 & H5 & H6).
+      repeat split; auto. rewrite OTH; auto.
+    - intros u a0 i0 p0 n0 H j. destruct (Nat.eq_dec u t) as [->|Hu].
+      + exfalso. revert H. unfold A'; cbn. rewrite Nat.eqb_refl; cbn. discriminate.
+      + assert (Hph' : ph (views A u) = PConv a0 i0 p0 n0).
+        { revert H. unfold A'; cbn. destruct (Nat.eqb_spec u t); [congruence|auto]. }
+        destruct (i_pend_uniq0 u t a0 i0 p0 n0 a i p n Hu (or_introl Hph') (or_introl Hph)) as (Hnn & _).
+        rewrite set_slot_other; [eapply i_pend_conv0; eauto|]. intros E; inversion E; subst. congruence.
+    - intros u a0 i0 p0 n0 H. destruct (Nat.eq_dec u t) as [->|Hu].
+      + assert (Hpd : pending (views A' t) a0 i0 p0 n0) by (right; exact H). apply PT in Hpd. inversion Hpd; subst a0 i0 p0 n0.
+        exists o, pre. split; [exact Hp|]. intros j. fold idx.
+        destruct (Nat.eqb_spec j idx) as [->|Hj].
+        * apply set_slot_same.
+        * rewrite set_slot_other; [eapply i_pend_conv0; eauto|]. intros E; inversion E; subst. congruence.
+      + assert (Hph' : ph (views A u) = PStored a0 i0 p0 n0).
+        { revert H. unfold A'; cbn. destruct (Nat.eqb_spec u t); [congruence|auto]. }
+        destruct (i_pend_uniq0 u t a0 i0 p0 n0 a i p n Hu (or_intror Hph') (or_introl Hph)) as (Hnn & _).
+        destruct (i_pend_stored0 u a0 i0 p0 n0 Hph') as (o0 & pre0 & H1 & H2).
+        exists o0, pre0. split; [exact H1|]. intros j. rewrite set_slot_other; [apply H2|]. intros E; inversion E; subst. congruence.
+    - intros u u' a1 i1 p1 n1 a2 i2 p2 n2 Hne H1 H2. apply PA in H1. apply PA in H2. eapply (i_pend_uniq0 u u'); eauto.
+    - intros n0 Hn00 Hnp j.
+      assert (n0 <> n).
+      { intros ->. apply (Hnp t a i p). right. unfold A'; cbn. rewrite Nat.eqb_refl. reflexivity. }
+      rewrite set_slot_other; [|intros E; inversion E; subst; congruence].
+      apply i_unlinked0; [exact Hn00|]. intros u a1 i1 p1 Hpd.
+      destruct (Nat.eq_dec u t) as [->|Hu].
+      + unfold pending in Hpd. rewrite Hph in Hpd. destruct Hpd as [E|E]; inversion E; subst. congruence.
+      + apply (Hnp u a1 i1 p1). unfold A'; cbn. destruct (Nat.eqb_spec u t); [congruence|exact Hpd].
+    - intros u. unfold A'; cbn. destruct (Nat.eqb_spec u t) as [->|]; [cbn|]; apply i_known0.
+  Qed.
+
+  (** the second CAS of expand_slot: converting -> array node; the pending node becomes linked *)
+  Lemma Inv_link g A tr t a i p n o pre :
+    Inv g A tr -> ph (views A t) = PStored a i p n -> pfx A a = Some (o, pre) ->
+    Inv (with_arr g (set_slot (arr g) a i (mkSlot n 2)))
+        (set_view (set_pfx A n (child o pre (bits_of a) i)) t (mkL PIdle (ka (views A t)) (ko (views A t)) (kpre (views A t)))) tr.
+  Proof.
+    intros I Hph Hp. destruct I.
+    set (A' := set_view _ t _).
+    destruct (i_pend0 t a i p n (or_intror Hph)) as (Hs & Hn_none & Hn_lt & Hn0 & Hp0 & _).
+    destruct (i_data0 a o pre i p 1 Hp Hs ltac:(discriminate) Hp0) as ((F1 & F2) & Hple & _).
+    destruct (i_lim0 a o pre Hp) as (Ha_lt & Hpre_lt & Ha0 & Han0).
+    assert (Hi_lt : (N.of_nat i < 2 ^ N.of_nat (bits_of a))%N) by (rewrite F2; apply cut_lt).
+    destruct (i_pend_stored0 t a i p n Hph) as (o' & pre' & Hp' & Hcont). rewrite Hp in Hp'. inversion Hp'; subst o' pre'. clear Hp'.
+    assert (Hna : n <> a) by (intros ->; congruence).
+    assert (PFX : forall m, pfx A' m = if Nat.eqb m n then Some (child o pre (bits_of a) i) else pfx A m) by reflexivity.
+    assert (PFXo : forall m, m <> n -> pfx A' m = pfx A m).
+    { intros m Hm. rewrite PFX. destruct (Nat.eqb_spec m n); congruence. }
+    assert (PFXs : forall m x, pfx A m = Some x -> pfx A' m = Some x).
+    { intros m x Hm. rewrite PFXo; [exact Hm|]. intros ->. congruence. }
+    assert (PO : forall u a0 i0 p0 n0, pending (views A' u) a0 i0 p0 n0 -> u <> t /\ pending (views A u) a0 i0 p0 n0).
+    { intros u a0 i0 p0 n0. unfold A', pending; cbn. destruct (Nat.eqb_spec u t) as [->|Hu]; cbn; [intros [H|H]; discriminate|auto]. }
+    assert (OTH : forall u a0 i0 p0 n0, u <> t -> pending (views A u) a0 i0 p0 n0 -> n0 <> n /\ (a0, i0) <> (a, i)).
+    { intros u a0 i0 p0 n0 Hu H. eapply (i_pend_uniq0 u t); eauto. right; exact Hph. }
+    assert (NSL : forall j c, arr g n j <> mkSlot c 2).
+    { intros j c. rewrite Hcont. destruct (Nat.eqb j _); discriminate. }
+    assert (CH_lt : (snd (child o pre (bits_of a) i) < 2 ^ N.of_nat (fst (child o pre (bits_of a) i)))%N).
+    { unfold child; cbn [fst snd]. rewrite pow2_add. nia. }
+    constructor; cbn [arr narr nitem ikey with_arr]; auto.
+    - destruct i_head0 as [H0 H1]. split; [apply PFXs; exact H0|exact H1].
+    - intros a0 o0 pre0 H. rewrite PFX in H. destruct (Nat.eqb_spec a0 n) as [->|Hne].
+      + inversion H; subst o0 pre0. split; [exact Hn_lt|]. split; [exact CH_lt|]. split; [congruence|].
+        intros _. destruct (Nat.eq_dec a 0) as [->|Hz].
+        * rewrite (Ha0 eq_refl). unfold Feldman.bits_of; cbn. lia.
+        * specialize (Han0 Hz). lia.
+      + apply i_lim0; exact H.
+    - intros a0 o0 pre0 H Hz. rewrite PFX in H. destruct (Nat.eqb_spec a0 n) as [->|Hne].
+      + inversion H; subst o0 pre0. exists a, i, o, pre. repeat split; auto. rewrite set_slot_same. reflexivity.
+      + destruct (i_parent0 a0 o0 pre0 H Hz) as (pa & i' & po & ppre & H1 & H2 & H3 & H4).
+        exists pa, i', po, ppre. repeat split; auto. rewrite set_slot_other; [exact H2|]. intros E; inversion E; subst. congruence.
+    - intros pa po ppre i' c H1 H2. rewrite PFX in H1. destruct (Nat.eqb_spec pa n) as [->|Hne].
+      + exfalso. rewrite set_slot_other in H2 by (intros E; inversion E; congruence). eapply NSL; eauto.
+      + destruct (set_slot_cases (arr g) a i (mkSlot n 2) pa i') as [[E Hv]|[E Hv]]; rewrite Hv in H2.
+        * inversion E; subst pa i'. inversion H2; subst c. rewrite Hp in H1. inversion H1; subst po ppre.
+          rewrite PFX, Nat.eqb_refl. repeat split; auto.
+        * destruct (i_child0 pa po ppre i' c H1 H2) as (K1 & K2 & K3). repeat split; auto.
+    - intros a0 o0 pre0 i0 p0 b0 H1 H2 Hb Hn. rewrite PFX in H1. destruct (Nat.eqb_spec a0 n) as [->|Hne].
+      + inversion H1; subst o0 pre0. rewrite set_slot_other in H2 by (intros E; inversion E; congruence).
+        rewrite Hcont in H2. destruct (Nat.eqb_spec i0 (cut (hash (ikey g p)) (o + bits_of a) abits)) as [->|Hj]; [|inversion H2; congruence].
+        inversion H2; subst p0 b0. split; [|split; [exact Hple|lia]]. unfold fits. split.
+        * Show. rewrite mod_extend. rewrite F1. rewrite <- cut_N. rewrite <- F2. reflexivity.
+        * unfold Feldman.bits_of. destruct (Nat.eqb_spec n 0); [congruence|reflexivity].
+      + destruct (set_slot_cases (arr g) a i (mkSlot n 2) a0 i0) as [[E Hv]|[E Hv]]; rewrite Hv in H2.
+        * inversion H2; congruence.
+        * eapply i_data0; eauto.
+    - (* injectivity *)
+      intros a1 a2 x H1 H2. rewrite PFX in H1, H2.
+      assert (KEY : forall a', pfx A a' = Some (child o pre (bits_of a) i) -> False).
+      { intros a' Ha'. destruct (i_lim0 a' _ _ Ha') as (_ & _ & Hz & _).
+        assert (a' <> 0). { intros ->. specialize (Hz eq_refl). pose proof (bits_pos a). lia. }
+        destruct (i_parent0 a' _ _ Ha' H) as (pa & i' & po & ppre & K1 & K2 & K3 & K4).
+        destruct (i_lim0 pa po ppre K1) as (_ & Kpre & Kz & Knz).
+        unfold child in K4. inversion K4 as [[E1 E2]].
+        assert (po = o /\ bits_of pa = bits_of a) as [-> Eb].
+        { unfold Feldman.bits_of in *. destruct (Nat.eqb_spec pa 0) as [->|P0]; destruct (Nat.eqb_spec a 0) as [->|A0].
+          - rewrite (Kz eq_refl), (Ha0 eq_refl). auto.
+          - specialize (Kz eq_refl). specialize (Han0 A0). lia.
+          - specialize (Ha0 eq_refl). specialize (Knz P0). lia.
+          - lia. }
+        destruct (decompose (N.of_nat i) (N.of_nat i') Hpre_lt Kpre E2) as [-> Ei]. apply Nat2N.inj in Ei. subst i'.
+        assert (pa = a) by (eapply i_inj0; eauto). subst pa. congruence. }
+      destruct (Nat.eqb_spec a1 n) as [->|N1]; destruct (Nat.eqb_spec a2 n) as [->|N2]; auto.
+      + inversion H1; subst x. exfalso; eapply KEY; eauto.
+      + inversion H2; subst x. exfalso; eapply KEY; eauto.
+      + eapply i_inj0; eauto.
+    - intros a0 i0 c b H1 Hb. destruct (set_slot_cases (arr g) a i (mkSlot n 2) a0 i0) as [[E Hv]|[E Hv]]; rewrite Hv in H1.
+      + inversion E; subst. inversion H1; subst. split; [reflexivity|]. rewrite PFXo by auto. congruence.
+      + destruct (i_arrslot0 a0 i0 c b H1 Hb) as (K1 & K2). split; [exact K1|]. rewrite PFX. destruct (Nat.eqb a0 n); [discriminate|exact K2].
+    - intros u a0 i0 p0 n0 H. apply PO in H. destruct H as (Hu & H). destruct (OTH u a0 i0 p0 n0 Hu H) as (Hnn & Hai).
+      destruct (i_pend0 u a0 i0 p0 n0 H) as (H1 & H2 & H3 & H4 & H5 & H6). repeat split; auto.
+      + rewrite set_slot_other; auto.
+      + rewrite PFXo; auto.
+      + rewrite PFX. destruct (Nat.eqb a0 n); [discriminate|exact H6].
+    - intros u a0 i0 p0 n0 H j.
+      assert (Hpd : pending (views A' u) a0 i0 p0 n0) by (left; exact H). apply PO in Hpd. destruct Hpd as (Hu & Hpd).
+      assert (Hph' : ph (views A u) = PConv a0 i0 p0 n0).
+      { revert H. unfold A'; cbn. destruct (Nat.eqb_spec u t); [congruence|auto]. }
+      destruct (i_pend0 u a0 i0 p0 n0 Hpd) as (_ & H2 & _).
+      rewrite set_slot_other; [eapply i_pend_conv0; eauto|]. intros E; inversion E; subst. congruence.
+    - intros u a0 i0 p0 n0 H.
+      assert (Hpd : pending (views A' u) a0 i0 p0 n0) by (right; exact H). apply PO in Hpd. destruct Hpd as (Hu & Hpd).
+      assert (Hph' : ph (views A u) = PStored a0 i0 p0 n0).
+      { revert H. unfold A'; cbn. destruct (Nat.eqb_spec u t); [congruence|auto]. }
+      destruct (i_pend_stored0 u a0 i0 p0 n0 Hph') as (o0 & pre0 & H1 & H2).
+      destruct (i_pend0 u a0 i0 p0 n0 Hpd) as (_ & H3 & _).
+      exists o0, pre0. split; [apply PFXs; exact H1|]. intros j. rewrite set_slot_other; [apply H2|]. intros E; inversion E; subst. congruence.
+    - intros u u' a1 i1 p1 n1 a2 i2 p2 n2 Hne H1 H2. apply PO in H1. apply PO in H2. destruct H1, H2. eapply (i_pend_uniq0 u u'); eauto.
+    - intros n0 Hn00 Hnp j. rewrite PFX in Hn00. destruct (Nat.eqb_spec n0 n) as [->|Hne]; [discriminate|].
+      rewrite set_slot_other; [|intros E; inversion E; subst; congruence].
+      apply i_unlinked0; [exact Hn00|]. intros u a1 i1 p1 Hpd.
+      destruct (Nat.eq_dec u t) as [->|Hu].
+      + unfold pending in Hpd. rewrite Hph in Hpd. destruct Hpd as [E|E]; inversion E; subst. congruence.
+      + apply (Hnp u a1 i1 p1). unfold A'; cbn. destruct (Nat.eqb_spec u t); [congruence|exact Hpd].
+    - intros u. assert (K := i_known0 u). unfold A'; cbn [views set_view set_pfx]. destruct (Nat.eqb_spec u t) as [->|]; cbn [ka ko kpre].
+      + apply PFXs. exact (i_known0 t).
+      + apply PFXs. exact K.
+  Qed.
 End Inv.
